@@ -89,6 +89,8 @@ class Stats:
         self.checks += res.checks
         if res.nontrivial:
             self.nontrivial.add(digest(case))
+        if res.fail is not None:
+            self.labels[f"FAILED:{res.fail.clause}"] += 1
         for lab in res.labels:
             self.labels[lab] += 1
             if lab.startswith("inconclusive"):
